@@ -313,6 +313,9 @@ def changed_functions(prop):
     watch = getattr(prop, "watch", ())
     if not watch:
         return []
+    # evaluation runs of many patched copies (lib/harmless_process.sh) can switch the amplification off
+    if os.environ.get("VERIF_NO_AMPLIFY") or os.path.exists(os.path.join(BUILD, "NO_AMPLIFY")):
+        return []
     try:
         cur = json.load(open(os.path.join(BUILD, "funchash.json")))
         base = json.load(open(os.path.join(VERIF, "funchash.base.json")))
